@@ -66,7 +66,7 @@ def ratval(v):
 
 
 def is_sym(v):
-    return isinstance(v, (Sym, SymBool, SymC))
+    return is_sym(v)
 
 
 def lift(v):
@@ -516,6 +516,9 @@ class Sym:
             if c == 0:
                 raise Unsupported('division by the constant zero in the real-arithmetic trace')
             return a * ratval(1 / c)
+        if _DIVISION[0] == 'uf':
+            # sound abstraction for universally quantified claims: 1/b is an arbitrary function of b
+            return a * uninterpreted('recip')(b)
         return a / b
 
     def __truediv__(self, o):
@@ -714,6 +717,19 @@ class Sym:
 
 
 _UF = {}
+_DIVISION = ['real']
+
+
+class abstract_division:
+    """context manager: division by a symbolic term becomes multiplication with an
+    uninterpreted reciprocal (sound over-approximation when *proving* a claim)"""
+
+    def __enter__(self):
+        self.old = _DIVISION[0]
+        _DIVISION[0] = 'uf'
+
+    def __exit__(self, *a):
+        _DIVISION[0] = self.old
 
 
 def uninterpreted(name, arity=1):
@@ -1100,7 +1116,7 @@ def has_sym(a):
         if a.dtype != object:
             return False
         for v in a.flat:
-            if isinstance(v, (Sym, SymBool, SymC)):
+            if is_sym(v):
                 return True
             if type(v).__name__ == 'Bicomplex':
                 return True
@@ -1125,7 +1141,7 @@ def normalize(r):
         return np.asarray(r, dtype=float)
     kinds = set()
     for v in r.flat:
-        if isinstance(v, (Sym, SymBool, SymC)):
+        if is_sym(v):
             return r if isinstance(r, SymArr) else r.view(SymArr)
         if isinstance(v, (bool, np.bool_)):
             kinds.add('b')
@@ -2085,3 +2101,214 @@ def model_assignment(model, names):
                 c = Fraction(0)
         out[n] = c
     return out
+
+
+# --------------------------------------------------------------------------
+# IEEE floating point scalars (engine E3): every operation rounds with RNE
+# --------------------------------------------------------------------------
+_RNE = z3.RNE()
+
+
+class SymFP:
+    """IEEE-754 value of a fixed z3 FP sort; numpy object loops drive it elementwise."""
+    __slots__ = ('t',)
+    __array_ufunc__ = None
+
+    def __init__(self, t):
+        self.t = t
+
+    @property
+    def sort(self):
+        return self.t.sort()
+
+    def _o(self, o):
+        if isinstance(o, SymFP):
+            return o.t
+        if isinstance(o, (bool, np.bool_)):
+            return z3.FPVal(float(o), self.sort)
+        if isinstance(o, (int, float, np.integer, np.floating)):
+            return z3.FPVal(float(o), self.sort)
+        if isinstance(o, np.ndarray) and o.ndim == 0 and o.dtype != object:
+            return self._o(o[()])
+        return None
+
+    def _bin(self, o, f, uf, refl=False):
+        if isinstance(o, np.ndarray):
+            return _arr_binop(o, self, uf) if refl else _arr_binop(self, o, uf)
+        ot = self._o(o)
+        if ot is None:
+            return NotImplemented
+        return SymFP(f(_RNE, ot, self.t) if refl else f(_RNE, self.t, ot))
+
+    def __add__(self, o):
+        return self._bin(o, z3.fpAdd, np.add)
+
+    def __radd__(self, o):
+        return self._bin(o, z3.fpAdd, np.add, True)
+
+    def __sub__(self, o):
+        return self._bin(o, z3.fpSub, np.subtract)
+
+    def __rsub__(self, o):
+        return self._bin(o, z3.fpSub, np.subtract, True)
+
+    def __mul__(self, o):
+        if isinstance(o, SymBool):
+            return SymFP(z3.If(o.t, self.t, z3.FPVal(0.0, self.sort)))
+        return self._bin(o, z3.fpMul, np.multiply)
+
+    def __rmul__(self, o):
+        if isinstance(o, SymBool):
+            return SymFP(z3.If(o.t, self.t, z3.FPVal(0.0, self.sort)))
+        return self._bin(o, z3.fpMul, np.multiply, True)
+
+    def __truediv__(self, o):
+        return self._bin(o, z3.fpDiv, np.true_divide)
+
+    def __rtruediv__(self, o):
+        return self._bin(o, z3.fpDiv, np.true_divide, True)
+
+    def __neg__(self):
+        return SymFP(z3.fpNeg(self.t))
+
+    def __pos__(self):
+        return self
+
+    def __abs__(self):
+        return SymFP(z3.fpAbs(self.t))
+
+    def _cmp(self, o, f, uf):
+        if isinstance(o, np.ndarray):
+            return _arr_binop(self, o, uf)
+        ot = self._o(o)
+        if ot is None:
+            return NotImplemented
+        return SymBool(f(self.t, ot))
+
+    def __lt__(self, o):
+        return self._cmp(o, z3.fpLT, np.less)
+
+    def __le__(self, o):
+        return self._cmp(o, z3.fpLEQ, np.less_equal)
+
+    def __gt__(self, o):
+        return self._cmp(o, z3.fpGT, np.greater)
+
+    def __ge__(self, o):
+        return self._cmp(o, z3.fpGEQ, np.greater_equal)
+
+    def __eq__(self, o):
+        return self._cmp(o, z3.fpEQ, np.equal)
+
+    def __ne__(self, o):
+        return self._cmp(o, z3.fpNEQ, np.not_equal)
+
+    __hash__ = None
+
+    def __float__(self):
+        raise Unsupported('symbolic float coerced through float()')
+
+    def __bool__(self):
+        return ctx().decide(z3.Not(z3.fpIsZero(self.t)))
+
+    def isnan(self):
+        return SymBool(z3.fpIsNaN(self.t))
+
+    def isinf(self):
+        return SymBool(z3.fpIsInf(self.t))
+
+    @property
+    def real(self):
+        return self
+
+    @property
+    def imag(self):
+        return 0.0
+
+    @property
+    def shape(self):
+        return ()
+
+    @property
+    def ndim(self):
+        return 0
+
+    @property
+    def size(self):
+        return 1
+
+    def __repr__(self):
+        return 'SymFP(%s)' % (str(self.t)[:70],)
+
+
+def fp_var(name, sort):
+    return SymFP(z3.FP(name, sort))
+
+
+def _fp_max(a, b):
+    """numpy maximum: NaN propagating"""
+    ref = a if isinstance(a, SymFP) else b
+    ta, tb = ref._o(a), ref._o(b)
+    return SymFP(z3.If(z3.fpIsNaN(ta), ta, z3.If(z3.fpIsNaN(tb), tb, z3.If(z3.fpGEQ(ta, tb), ta, tb))))
+
+
+def _fp_min(a, b):
+    ref = a if isinstance(a, SymFP) else b
+    ta, tb = ref._o(a), ref._o(b)
+    return SymFP(z3.If(z3.fpIsNaN(ta), ta, z3.If(z3.fpIsNaN(tb), tb, z3.If(z3.fpLEQ(ta, tb), ta, tb))))
+
+
+# make the generic layers aware of SymFP
+_is_sym_base = is_sym
+
+
+def is_sym(v):  # noqa: F811
+    return isinstance(v, (Sym, SymBool, SymC, SymFP))
+
+
+_ite_base = ite
+
+
+def ite(c, a, b):  # noqa: F811
+    if isinstance(a, SymFP) or isinstance(b, SymFP):
+        if isinstance(c, np.ndarray) and c.ndim == 0:
+            c = c[()]
+        if not isinstance(c, SymBool):
+            return a if c else b
+        ref = a if isinstance(a, SymFP) else b
+        return SymFP(z3.If(c.t, ref._o(a), ref._o(b)))
+    return _ite_base(c, a, b)
+
+
+_smax_base, _smin_base = smax, smin
+
+
+def smax(a, b):  # noqa: F811
+    if isinstance(a, SymFP) or isinstance(b, SymFP):
+        return _fp_max(a, b)
+    return _smax_base(a, b)
+
+
+def smin(a, b):  # noqa: F811
+    if isinstance(a, SymFP) or isinstance(b, SymFP):
+        return _fp_min(a, b)
+    return _smin_base(a, b)
+
+
+_BINARY[np.maximum] = smax
+_BINARY[np.minimum] = smin
+_BINARY[np.fmax] = smax
+_BINARY[np.fmin] = smin
+_el_isnan_base = _el_isnan
+
+
+def _el_isnan(v):  # noqa: F811
+    if isinstance(v, SymFP):
+        return v.isnan()
+    return _el_isnan_base(v)
+
+
+_UNARY[np.isnan] = _el_isnan
+_UNARY[np.isinf] = lambda v: v.isinf() if isinstance(v, SymFP) else (False if is_sym(v) else bool(np.isinf(v)))
+_UNARY[np.isfinite] = lambda v: SymBool(z3.And(z3.Not(z3.fpIsNaN(v.t)), z3.Not(z3.fpIsInf(v.t)))) if isinstance(v, SymFP) \
+    else (True if is_sym(v) else bool(np.isfinite(v)))
